@@ -1,5 +1,6 @@
 from __future__ import annotations
 
+import sys
 from typing import TYPE_CHECKING, BinaryIO
 
 if TYPE_CHECKING:
@@ -12,6 +13,8 @@ class BitBuffer:
     def __init__(self, stream: BinaryIO, endian: str):
         self.stream = stream
         self.endian = endian
+        # "@" and "=" are the byte order of the machine, for the bit order within a unit as for its bytes
+        self._little = endian == "<" or (endian in ("@", "=") and sys.byteorder == "little")
 
         self._type: type[BaseType] | None = None
         self._buffer = 0
@@ -27,7 +30,7 @@ class BitBuffer:
             self._buffer = field_type._read(self.stream)
 
         if isinstance(self._buffer, bytes):
-            if self.endian == "<":
+            if self._little:
                 self._buffer = int.from_bytes(self._buffer, "little")
             else:
                 self._buffer = int.from_bytes(self._buffer, "big")
@@ -35,7 +38,7 @@ class BitBuffer:
         if bits > self._remaining:
             raise ValueError("Reading straddled bits is unsupported")
 
-        if self.endian == "<":
+        if self._little:
             v = self._buffer & ((1 << bits) - 1)
             self._buffer >>= bits
             self._remaining -= bits
@@ -60,7 +63,7 @@ class BitBuffer:
         if self._type is None or self._type.size is None:
             raise ValueError("Invalid state")
 
-        if self.endian == "<":
+        if self._little:
             self._buffer |= data << (self._type.size * 8 - self._remaining)
         else:
             self._buffer |= data << (self._remaining - bits)
